@@ -79,7 +79,7 @@ Definition task_okV (w : wstate) (t : task) : Prop :=
      exists f n, pend_fut (t_pend t) = Some f /\ nth_error (t_futs t) f = Some (m, n)) /\
   exists done, Forall2 (fut_ok w) (t_futs t) (specs_of done) /\
     ((t_script t = done ++ t_rest t /\ ret_of (t_script t) = ret_of (t_rest t)) \/
-     (t_rest t = [Dead] /\ t_desired t = None /\ exists tail, t_script t = done ++ tail)).
+     (t_rest t = [Dead] /\ exists tail, t_script t = done ++ tail)).
 
 Definition pc_okV (w : wstate) : Prop :=
   match w_pc w with
